@@ -3,7 +3,7 @@ from __future__ import annotations
 
 from typing import Any, Dict, List, Optional, Set, Tuple
 
-from ..kit import alloc_literal, caller_ok, nonempty_decision, Ctx, calls, calls_target, kw, loops, nf_cmp, normal_paths, poly_of, rule, short, stores
+from ..kit import path_text, alloc_literal, caller_ok, nonempty_decision, Ctx, calls, calls_target, kw, loops, nf_cmp, normal_paths, poly_of, rule, short, stores
 from ..paths import Event, Path
 from ..terms import NONE, Term, Unrecognised, cmp_nf, key, strip_ver, subterms
 from .c04 import writer_allowlist
@@ -67,7 +67,7 @@ def r2(ctx: Ctx) -> None:
         else:
             ok = False
             found = "matching is not conditioned on session.with_order_execution"
-        ctx.check(ok, f, b.accept.node, f"{b.phase} {b.kind}: matching round iff execution switch, on the order's own market", f"if session.with_order_execution: {market_of(b.accept)}._execution()", found)
+        ctx.check(ok, f, b.accept.node, f"{b.phase} {b.kind}: matching round iff execution switch, on the order's own market", f"if session.with_order_execution: {market_of(b.accept)}._execution()", found, guard="text", guard_text=path_text(b.path))
         # the switch is read when the decision is taken: a hook run for an earlier order of the same
         # submission (trading halt) may have cleared it since
         import ast as _ast
@@ -75,7 +75,8 @@ def r2(ctx: Ctx) -> None:
         gnodes = [nd for c, pol, nd in b.path.conds if strip_ver(c)[0] == "attr" and strip_ver(c)[2] == "with_order_execution"]
         if gnodes:
             nd = gnodes[-1]
-            fresh = nd is not None and any(isinstance(x, _ast.Attribute) and x.attr == "with_order_execution" for x in _ast.walk(nd))
+            fresh = nd is not None and (any(isinstance(x, _ast.Attribute) and x.attr == "with_order_execution" for x in _ast.walk(nd))
+                                        or any(isinstance(x, _ast.Call) and isinstance(x.func, _ast.Attribute) and isinstance(x.func.value, _ast.Name) and x.func.value.id == "session" for x in _ast.walk(nd)))  # a method of the session asked now reads the switch now
             ctx.check(fresh, f, nd if nd is not None else b.accept.node, f"{b.phase} {b.kind}: the execution switch is read at the moment of the decision", "`if session.with_order_execution:` evaluated per order",
                       "read per order" if fresh else f"the decision tests `{_ast.unparse(nd) if nd is not None else '?'}`, a copy taken before the orders of the submission were processed")
     ctx.check(kinds == {("order", "normal"), ("cancel", "normal"), ("order", "hft"), ("cancel", "hft")}, f, f.node, "orders and cancels are handled in the normal and the high-frequency phase", "4 kinds", str(sorted(kinds)))
@@ -96,7 +97,7 @@ def r2(ctx: Ctx) -> None:
                     if e.kind == "store" and e.attr == "_is_running" and e.base == el and key(strip_ver(e.value)) == "session.with_order_execution" and not bp.conds:
                         copy.append(l)
         ok = len(copy) == 1 and len(step) == 1 and p.events.index(copy[0]) < p.events.index(step[0]) and key(strip_ver(copy[0].iter)) in ("self.simulator.markets", "markets")
-        ctx.check(ok, g, g.node, "every market's running flag is set from the session before the steps", "for market in markets: market._is_running = session.with_order_execution", f"{len(copy)} copy loop(s)")
+        ctx.check(ok, g, g.node, "every market's running flag is set from the session before the steps", "for market in markets: market._is_running = session.with_order_execution", f"{len(copy)} copy loop(s)", guard="text", guard_text=__import__("ast").unparse(g.node))
 
 
 def _self_attr_of(t: Term) -> Optional[str]:
